@@ -12,6 +12,7 @@ hypotheses are the buffer facts the loader invariant `LoadedSec` / `LoadedSeg` g
   modinfo    : `modinfo_total`                                (new: arbitrary content)
 -/
 import ElfioVerif.Lemmas.LoadSafety
+import ElfioVerif.Lemmas.LoadMembers
 import ElfioVerif.Model.Inspect
 import ElfioVerif.Props.C13
 import ElfioVerif.Props.C08
@@ -703,6 +704,47 @@ theorem allSyms_total (t : SymTab) (h : SymReady t) (n : Nat) : allSyms t n = .o
       exact ⟨(), by simp only [hr, ignore]; rfl, trivial⟩)
     (List.range n) () trivial
   exact hu
+
+/-! ### `dump::segment_headers` : every member section exists -/
+
+theorem allM_total {α : Type} (f : α → M Unit) : ∀ (l : List α), (∀ x ∈ l, f x = .ok ()) → allM l f = .ok () := by
+  intro l
+  induction l with
+  | nil => intro _; rfl
+  | cons x rest ih =>
+    intro h
+    unfold allM
+    rw [h x (by simp)]
+    exact ih (fun y hy => h y (by simp [hy]))
+
+theorem dumpSegMembers_total (o : Obj) (h : MembersOk o) : dumpSegMembers o = .ok () := by
+  unfold dumpSegMembers
+  apply allM_total
+  intro g hg
+  apply allM_total
+  intro m hm
+  have hlt := h g (List.mem_of_mem_take hg) m hm
+  unfold memberCheck
+  rw [List.getElem?_eq_getElem hlt]
+  rfl
+
+/-- what the data requests leave alone: the number of sections and the segments' member lists -/
+def Frame (o o' : Obj) : Prop :=
+  o'.secs.length = o.secs.length ∧ ∀ g' ∈ o'.segs, ∃ g ∈ o.segs, g'.secs = g.secs
+
+theorem Frame.refl (o : Obj) : Frame o o := ⟨rfl, fun g hg => ⟨g, hg, rfl⟩⟩
+
+theorem Frame.trans {a b c : Obj} (h1 : Frame a b) (h2 : Frame b c) : Frame a c := by
+  refine ⟨h2.1.trans h1.1, fun g hg => ?_⟩
+  obtain ⟨g1, hg1, e1⟩ := h2.2 g hg
+  obtain ⟨g0, hg0, e0⟩ := h1.2 g1 hg1
+  exact ⟨g0, hg0, e1.trans e0⟩
+
+theorem Frame.of_secs {o o' : Obj} (hl : o'.secs.length = o.secs.length) (hg : o'.segs = o.segs) : Frame o o' :=
+  ⟨hl, fun g h => ⟨g, hg ▸ h, rfl⟩⟩
+
+theorem Frame.members {o o' : Obj} (f : Frame o o') (h : MembersOk o) : MembersOk o' :=
+  h.of_same f.1 f.2
 
 end Inspect
 end ElfioVerif
